@@ -44,7 +44,17 @@ type c05Core struct {
 
 func (k *c05Core) apply(cmd []byte) sm.Result {
 	k.log = append(k.log, append([]byte(nil), cmd...))
-	n := len(k.log)
+	return c05Result(len(k.log), cmd)
+}
+
+// c05Result is the result of the n-th update. The commands of the second
+// client slot are "puts": their result is empty (Value 0, no Data), as a user
+// state machine is free to return; a duplicate application of one of them shows
+// in the content of the user state machine only.
+func c05Result(n int, cmd []byte) sm.Result {
+	if len(cmd) == 3 && cmd[0] == 'P' && cmd[1]/16 == 2 {
+		return sm.Result{}
+	}
 	return sm.Result{Value: uint64(n), Data: append([]byte{byte(n)}, cmd...)}
 }
 
@@ -269,8 +279,7 @@ func (m *c05Model) touch(i int) *c05MSess {
 
 func (m *c05Model) applySM(cmd []byte) sm.Result {
 	m.smlog = append(m.smlog, append([]byte(nil), cmd...))
-	n := len(m.smlog)
-	return sm.Result{Value: uint64(n), Data: append([]byte{byte(n)}, cmd...)}
+	return c05Result(len(m.smlog), cmd)
 }
 
 type c05Exp struct {
